@@ -44,3 +44,18 @@ _Bool has_cur_a, seen_a, cur_a, g_rm_nonnull; uint64_t cell_a; void *cell_rm_par
   __CPROVER_loop_invariant((has_cur_a && seen_a) ==> DONE_LABEL) \
   __CPROVER_loop_invariant((g_new != (void*)nbW) ==> (BEQ(queued_w, __CPROVER_loop_entry(queued_w)) && cell_rm_nbw == __CPROVER_loop_entry(cell_rm_nbw))) \
   __CPROVER_loop_invariant((g_new == (void*)nbW && !seen_a) ==> (!queued_w && cell_rm_nbw == 0))
+/* fastSplit(remove) -- the initial refinement by outgoing labels: as split, without removeMask / counters / pending Removes (none exist yet) */
+#define DONE_FW (tried_w == 1 && (split_w ==> (ctor_w && pushed_w && relsplit_w && g_nbw_idx < g_N && nbW->f0 == g_nbw_idx)))
+#define G_FBLOCKS seen_b, cur_b, cell_mb, tried_w, g_try_first, g_try_second, g_try_valid, ctor_w, pushed_w, relsplit_w, g_nbw_idx, g_parent, g_new, g_new_valid, g_new_pushed, g_N, g_R, bO->f0, nbW->f0, nbO->f0
+#define CONTRACT_FSPLIT \
+  __CPROVER_requires(v_this == g_this && v_remove == g_remove && !g_isplit && tried_w == 0 && g_N == g_N0 && SIZES && wbi < g_N0 && !ctor_w && !pushed_w && !relsplit_w && !g_new_valid && !g_try_valid) \
+  __CPROVER_assigns(G_FBLOCKS, g_isplit, g_mb) \
+  __CPROVER_ensures(g_isplit && SIZES) \
+  __CPROVER_ensures(has_b ==> DONE_FW) \
+  __CPROVER_ensures(!has_b ==> tried_w == 0)
+#define LOOPASG_FSPLIT__L_BLOCKS , G_FBLOCKS
+#define LOOP_FSPLIT__L_BLOCKS \
+  __CPROVER_loop_invariant(END_FSPLIT__L_BLOCKS.f0 == 0 && (seen_b ==> has_b) && SIZES && wB->f0 == wbi && g_isplit) \
+  __CPROVER_loop_invariant((has_b && BEGIN_FSPLIT__L_BLOCKS.f0 == 0) ==> seen_b) \
+  __CPROVER_loop_invariant((has_b && seen_b) ==> DONE_FW) \
+  __CPROVER_loop_invariant(!seen_b ==> (tried_w == 0 && !ctor_w && !pushed_w && !relsplit_w))
